@@ -957,9 +957,18 @@ class Table:
         # Read through OUR backend rather than pyarrow's S3 filesystem (#54).
         with data_file_manager.open_parquet_source(data_file.file_path) as src:
             if compute_expr is not None:
-                # pyarrow applies `filters` against all needed columns during the
-                # scan and returns only `columns`, so pushdown is correct here.
-                return pq.read_table(src, columns=columns, filters=compute_expr)
+                # Do NOT push the predicate down with pq.read_table(filters=...):
+                # its row-group pruning trusts parquet min/max statistics, which
+                # skip NaN (a chunk {5.0, NaN} is dropped for `!= 5.0` although the
+                # NaN row matches) and store an all-zero float chunk as
+                # (-0.0, +0.0) (the chunk is dropped for `in [0.0]`). Filter in
+                # memory, exactly like the checksum-verifying path above, so that
+                # every read path returns the same rows.
+                table = pq.read_table(src)
+                table = table.filter(compute_expr)
+                if columns is not None:
+                    table = table.select(columns)
+                return table
             return pq.read_table(src, columns=columns)
 
     def _scan_table(
